@@ -136,9 +136,9 @@ structure WF0 (s : Srv) : Prop where
 structure WF (s : Srv) : Prop extends WF0 s where
   pendingNil : s.pending = []
 
-/-- the fields the invariant talks about -/
+/-- everything but the script counters and the queue of background handlers -/
 def core (s : Srv) : Srv :=
-  { s with bg := [], nConn := 0, nEv := 0, nDisc := 0, nCall := 0, callDone := [] }
+  { s with bg := [], nConn := 0, nEv := 0, nDisc := 0 }
 
 theorem WF0.of_core {s s' : Srv} (h : WF0 s) (hc : core s' = core s) : WF0 s' := by
   have h1 : (core s').rooms = (core s).rooms := congrArg Srv.rooms hc
